@@ -98,12 +98,24 @@ FORMS = {
     'nested-inner': '<dtml-if t><dtml-in seq><dtml-with o>{L}<dtml-var x>'
                     '{R}</dtml-with></dtml-in></dtml-if>',
     'comment-neighbour': '<dtml-comment>c</dtml-comment>{L}<dtml-var x>{R}',
+    # a sub-template created with another encoding is rendered first (it
+    # decodes its own bytes with its own encoding); afterwards the outer
+    # template still uses its own
+    'after-sub-other-enc': '<dtml-var subo>|{L}<dtml-var x>{R}',
+    'after-sub-other-enc-hq': '<dtml-var subo>|<dtml-var x html_quote '
+                              'size=9999>{R}',
+    'after-sub-other-enc-fmt': '{L}<dtml-var subo>|<dtml-var x '
+                               'fmt=html-quote>',
+    'after-sub-other-enc-in': '<dtml-in seq><dtml-var subo>&dtml-x;'
+                              '<dtml-var x html_quote null="">{R}</dtml-in>',
     'epfs-if-else': '%(if f)[n%(else)[{L}%(x)s{R}%(if)]',
     'epfs-in-else': '%(in empty)[n%(else)[{L}%(x)s{R}%(in)]',
     'epfs': '{L}%(x)s{R}',
     'epfs-in': '%(in seq)[%(x)s{R}%(in)]',
 }
-MULTI = ('in-batch-inner', 'in-mapping-inner', 'in-sort-inner',
+MULTI = ('after-sub-other-enc', 'after-sub-other-enc-hq',
+         'after-sub-other-enc-fmt', 'after-sub-other-enc-in',
+         'in-batch-inner', 'in-mapping-inner', 'in-sort-inner',
          'two', 'in-body', 'in-items', 'in-batch', 'in-items-ent', 'epfs-in',
          'in-body-single')
 NEIGH = [('', ''), ('a', 'b'), ('é', ''), ('', '中'), ('<', '\U0001F600'),
@@ -123,8 +135,19 @@ def render(form, enc, L, R, value):
     ox.bx = value
     sub = HTML('[<dtml-var x>]', encoding=enc)
     sub2 = HTML(L + '<dtml-var x>' + R, encoding=enc)
+    other = [e for e in ENCODINGS if e != enc][len(src) % 3]
+    subo = HTML('(<dtml-var y>;<dtml-var y html_quote size=99>)',
+                encoding=other)
+    y = 'é€x'
+    try:
+        y.encode(other)
+    except UnicodeError:
+        y = 'éx'
+    if isinstance(value, bytes):
+        y = y.encode(other)
     return t(x=value, seq=[1, 2], xs=[value, value, value], t=1, f=0,
-             empty=[], o=Holder(), ox=ox, sub=sub, sub2=sub2,
+             empty=[], o=Holder(), ox=ox, sub=sub, sub2=sub2, subo=subo,
+             y=y,
              ms=[dict(mx=value), dict(mx=value)]), src
 
 
